@@ -24,6 +24,7 @@ import (
 	"reflect"
 	"runtime"
 	"strings"
+	"sync"
 	"sync/atomic"
 	"time"
 
@@ -52,7 +53,8 @@ type Step struct {
 type Thread struct {
 	Conn     int    `json:"conn"`     // index into conns
 	API      string `json:"api"`      // ctx | plain | cached | cachedplain
-	Dead     bool   `json:"dead"`     // context cancelled before the call
+	Dead     bool   `json:"dead"`     // context done before the call
+	Deadline bool   `json:"deadline"` // the context ends by its deadline (context.DeadlineExceeded), not by cancellation
 	Rewrap   bool   `json:"rewrap"`   // the body talks to the tx through sqlx.NewSessionFromTx(<its *sql.Tx>)
 	Steps    []Step `json:"steps"`
 	Fin      string `json:"fin"`      // nil | err | panic | goexit
@@ -110,6 +112,7 @@ type TOut struct {
 	Rejected  bool     `json:"rejected"` // circuit breaker refused the call
 	ConnID    int      `json:"conn_id"`  // connection of this thread's Begin (0: none)
 	DeadAtCall bool    `json:"dead_at_call"` // the context handed to the call was already done
+	ByDeadline bool    `json:"by_deadline"`  // that context ends (ended) with context.DeadlineExceeded
 }
 
 type Out struct {
@@ -509,6 +512,36 @@ func (r *runner) quantum(t int) bool {
 
 type nestedKey struct{}
 
+// ctrlCtx is a context ended by the executor, at a point of its choosing (from inside a driver call,
+// from the body), with the error of its choosing: context.Canceled or context.DeadlineExceeded.
+type ctrlCtx struct {
+	context.Context
+	done chan struct{}
+	kind error
+	once sync.Once
+}
+
+func newCtrl(parent context.Context, kind error) *ctrlCtx {
+	c := &ctrlCtx{Context: parent, done: make(chan struct{}), kind: kind}
+	if e := parent.Err(); e != nil {
+		// the enclosing context is already done (it cannot end while the nested call runs)
+		c.kind = e
+		c.end()
+	}
+	return c
+}
+
+func (c *ctrlCtx) Done() <-chan struct{} { return c.done }
+func (c *ctrlCtx) Err() error {
+	select {
+	case <-c.done:
+		return c.kind
+	default:
+		return nil
+	}
+}
+func (c *ctrlCtx) end() { c.once.Do(func() { close(c.done) }) }
+
 func (r *runner) runInline(j int, bodyCtx context.Context, mode string) {
 	if j < 0 || j >= len(r.threads) {
 		return
@@ -566,11 +599,18 @@ func (r *runner) threadMain(t int) {
 	if parent == nil {
 		parent = context.Background()
 	}
-	callCtx, cancel := context.WithCancel(parent)
+	var callCtx context.Context
+	var cancel context.CancelFunc
 	if th.shareCtx {
-		// the very context of the enclosing body: nobody can cancel it while this call runs
-		cancel()
+		// the very context of the enclosing body: nobody can end it while this call runs
 		callCtx, cancel = parent, func() {}
+	} else {
+		kind := context.Canceled
+		if sp.Deadline {
+			kind = context.DeadlineExceeded
+		}
+		root := newCtrl(parent, kind)
+		callCtx, cancel = root, root.end
 	}
 	th.cancel = cancel
 	defer cancel()
@@ -578,6 +618,10 @@ func (r *runner) threadMain(t int) {
 		cancel()
 	}
 	th.out.DeadAtCall = callCtx.Err() != nil
+	th.out.ByDeadline = sp.Deadline && !th.shareCtx
+	if e := callCtx.Err(); e != nil {
+		th.out.ByDeadline = e == context.DeadlineExceeded
+	}
 	body := r.body(t)
 	var err error
 	switch sp.API {
@@ -798,7 +842,7 @@ func (r *runner) body(t int) func(context.Context, sqlx.Session) error {
 				case r.p.failed:
 					// the driver failed the step
 					out.Body = []any{"stmt", k, r.p.lastVal[0], r.p.lastVal[1]}
-				case errors.Is(err, context.Canceled):
+				case errors.Is(err, context.Canceled), errors.Is(err, context.DeadlineExceeded):
 					// refused by database/sql before the driver
 					out.Body = []any{"ctx", k}
 				case errors.Is(err, sql.ErrTxDone):
